@@ -42,6 +42,9 @@ package kernel
 //@   requires CosiChainOK(chain) && AggsShape(chain) && VerifiersOK(chain) && !isnil(chain.persistStore)
 //@   requires m != nil && m.Snapshot != nil && m.data != nil && m.data.CN != nil && m.Snapshot.Timestamp < 9223372036854775808
 //@   requires chain.node.Peer != nil
+//@   requires [head-ref] chain.State != nil ==> chain.State.CacheRound != nil && chain.State.CacheRound.References != nil &&
+//@       storage.SHasRound(storage.StoreVer(chain.persistStore), chain.State.CacheRound.References.External) -- passed on to prepareAnnouncement
+//@   ignorepost Gap:roundok asFinal:closed determineBestRound updateEmptyHeadRoundAndPersist startNewRoundAndPersist:shape,next
 //@   maypanic
 //@   modifies chain.CosiAggregators, chain.CosiVerifiers, chain.CosiAggregators[..], chain.CosiVerifiers[..], m.Snapshot.RoundNumber, m.Snapshot.References, m.Snapshot.Hash, ghost bytes_cachequeue, ghost store_errors, ghost kernel_graph_state, ghost storever, chain.State.RoundLinks[..], chain.node.chains.m[..], chain.State.CacheRound, chain.State.FinalRound, chain.State.RoundHistory, chain.State.RoundHistory[..cap], chain.node.GraphTimestamp, chain.FinalIndex, chain.FinalCount
 //@   ensures [no-loss] err == nil && StoreErrors(chain.node.persistStore) == old(StoreErrors(chain.node.persistStore)) ==>
